@@ -59,6 +59,8 @@ def gen_program(rng, profile, index=None):
             op['elems'] = elems(1)
             op['delay'] = _w(rng, [(0.0, 4), (T / 2, 2), (T + Q, 2), (2 * T, 1)])
             op['fail'] = rng.random() < 0.2
+            if op['fail'] and rng.random() < 0.3:
+                op['fail_kind'] = 'cancelled'
         elif kind in ('map_list', 'map_iter', 'amap'):
             n = _w(rng, [(0, 1), (1, 3), (2, 3), (3, 2)])
             op['elems'] = elems(n)
@@ -69,6 +71,8 @@ def gen_program(rng, profile, index=None):
                 else:
                     op['delays'] = [_w(rng, [(0.0, 6), (T / 2, 2), (T + Q, 1), (2 * T, 1)]) for _ in range(n + 1)]
                     op['fail_at'] = rng.randrange(n + 1) if rng.random() < 0.25 else None
+                    if op['fail_at'] is not None and kind == 'amap' and rng.random() < 0.3:
+                        op['fail_kind'] = 'cancelled'
         elif kind == 'wait':
             op['cancel'] = rng.random() < 0.6
         return op
@@ -89,10 +93,10 @@ def gen_program(rng, profile, index=None):
             ks.append(('wait', 5))
         elif base == 'c03':
             ks.append(('wait', 1.5))
-        elif base == 'c08' and rng.random() < 0.15:
+        elif base == 'c08' and rng.random() < 0.2:
             ks.append(('wait', 3))
         op = gen_op(ks)
-        if base == 'c08' and op['op'] == 'wait':
+        if base == 'c08' and op['op'] == 'wait' and not profile.endswith('-flush'):
             op['cancel'] = False
         op['at'] = t
         if op['op'] != 'wait':
@@ -122,8 +126,10 @@ def gen_program(rng, profile, index=None):
                 foreign.append(fops)
     func = []
     for i in range(6):
-        func.append({'dur': _w(rng, [(0.0, 5), (T / 2, 3), (T + Q, 2), (2 * T, 1)]),
-                     'fail': rng.random() < (0.25 if not profile.endswith('-nofail') else 0.0)})
+        fail = rng.random() < (0.25 if not profile.endswith('-nofail') else 0.0)
+        if fail and rng.random() < 0.25:
+            fail = 'cancelled'
+        func.append({'dur': _w(rng, [(0.0, 5), (T / 2, 3), (T + Q, 2), (2 * T, 1)]), 'fail': fail})
     prog = {'world': 'buffer', 'profile': profile, 'T': T, 'ops': ops, 'foreign': foreign, 'func': func,
             'form': _w(rng, [('direct', 5), ('deco', 3), ('bare', 2)]) if T == 1.0 else _w(rng, [('direct', 6), ('deco', 4)])}
     if base == 'c07' and profile.endswith('-shutdown'):
@@ -220,6 +226,11 @@ class BufferWorld:
         try:
             if spec['dur']:
                 await asyncio.sleep(spec['dur'])
+            if spec['fail'] == 'cancelled':
+                # the function itself fails with CancelledError (e.g. it awaited a helper that was cancelled)
+                self.count('func.fail_with_cancellederror')
+                I.outcome = 'fail'
+                raise asyncio.CancelledError(f'func {i}')
             if spec['fail']:
                 self.count('func.fail')
                 raise FuncError(i)
@@ -228,7 +239,8 @@ class BufferWorld:
             I.outcome = 'fail'
             raise
         except asyncio.CancelledError:
-            I.outcome = 'cancelled'
+            if I.outcome != 'fail':
+                I.outcome = 'cancelled'
             raise
         finally:
             self.func_running = False
@@ -246,7 +258,8 @@ class BufferWorld:
                     sim_sleep(d)
                 if op.get('fail_at') == j:
                     self.count('producer.fail')
-                    raise ProducerError(sub.sid, j)
+                    raise (asyncio.CancelledError(f'producer {sub.sid}') if op.get('fail_kind') == 'cancelled'
+                           else ProducerError(sub.sid, j))
                 if j < len(sub.elems):
                     sub.produced.append(e)
                     yield e
@@ -262,7 +275,8 @@ class BufferWorld:
                     await asyncio.sleep(d)
                 if op.get('fail_at') == j:
                     self.count('producer.fail')
-                    raise ProducerError(sub.sid, j)
+                    raise (asyncio.CancelledError(f'producer {sub.sid}') if op.get('fail_kind') == 'cancelled'
+                           else ProducerError(sub.sid, j))
                 if j < len(sub.elems):
                     sub.produced.append(e)
                     yield e
@@ -276,6 +290,8 @@ class BufferWorld:
                 await asyncio.sleep(op['delay'])
             if op['fail']:
                 self.count('producer.fail')
+                if op.get('fail_kind') == 'cancelled':
+                    raise asyncio.CancelledError(f'producer {sub.sid}')
                 raise ProducerError(sub.sid, 0)
             sub.produced.append(sub.elems[0])
             return sub.elems[0]
@@ -491,7 +507,7 @@ class BufferWorld:
             if alien:
                 self.viol('C03', 'buffer.alien_argument', 'function received an argument that was never submitted/produced',
                           f'invocation {I.i} got {alien}')
-        if self.phase == 'done':
+        if self.phase == 'done' or end == 'quiescent':
             delivered = set()
             for I in ok_args:
                 delivered |= I.args
@@ -499,7 +515,8 @@ class BufferWorld:
             if lost:
                 self.viol('C03', 'buffer.lost', 'a submitted argument never reached a successful call',
                           f'elements {lost} (submissions {sorted({s.sid for s in self.subs for e in lost if e in s.produced})}) '
-                          f'not delivered by the end of the run (t={sch.clock})')
+                          f'not delivered by the end of the run (t={sch.clock}, run ended {end}'
+                          + (': nothing is runnable or timed any more, so they never will be' if end == 'quiescent' else '') + ')')
             # exactly-once for own-thread submissions
             for s in self.subs:
                 if s.thread != 'owner':
@@ -529,20 +546,30 @@ class BufferWorld:
         T = self.T
         arrivals = sorted((s.t, s.sid) for s in self.subs)
         times = [t for t, _ in arrivals]
-        forced = [W for W in self.waits if W.op.get('cancel')]
-        final_t = forced[0].t0 if forced else None      # the final wait(cancel=True) ends the debounce regime
+        # a forced flush (wait(cancel=True)) suspends the debounce claims while it is pending
+        forced = [(W.t0, W.t1 if W.t1 is not None else float('inf')) for W in self.waits if W.op.get('cancel')]
 
-        def running_in(a, b):
-            """True if the function runs at some instant of [a, b] (closed interval, touching counts)."""
-            return any(I.t0 <= b and (I.t1 is None or I.t1 >= a) for I in self.invs)
+        def forced_in(a, b):
+            return any(f0 <= b and f1 >= a for f0, f1 in forced)
 
         for I in self.invs:
-            if final_t is not None and I.t0 >= final_t:
+            if forced_in(I.t0, I.t0):
                 continue
             before = [t for t in times if t < I.t0]
             if before and before[-1] > I.t0 - T:
                 self.viol('C08', 'buffer.early_call', 'function called while submissions keep arriving less than timeout apart',
-                          f'invocation {I.i} started t={I.t0}, latest earlier submission t={before[-1]} (timeout {T})')
+                          f'invocation {I.i} started t={I.t0}, latest earlier submission t={before[-1]} (timeout {T}); '
+                          f'forced flushes pending during {forced}')
+        if self.end == 'quiescent':
+            delivered = set()
+            for I in self.invs:
+                if I.outcome == 'ok':
+                    delivered |= I.args
+            lost = sorted({e for sub in self.subs for e in sub.produced} - delivered)
+            if lost:
+                self.viol('C08', 'buffer.burst_never_called', 'a burst is never followed by a call (the buffer went dead)',
+                          f'elements {lost} were submitted but the run became quiescent at t={self.sch.clock} without a call for them; '
+                          f'invocations: {[(I.i, I.t0, I.outcome) for I in self.invs]}')
         # bursts
         i = 0
         n = len(arrivals)
@@ -553,7 +580,7 @@ class BufferWorld:
             first, last = times[i], times[j]
             tie = (i > 0 and times[i] - times[i - 1] == T) or (j + 1 < n and times[j + 1] - times[j] == T)
             s = last + T
-            if not tie and (final_t is None or s < final_t):
+            if not tie and not forced_in(first, s) and self.phase == 'done':
                 others = [I for I in self.invs if not (I.t0 == s)]
                 busy = any(I.t0 <= s and (I.t1 is None or I.t1 >= first) for I in others)
                 if not busy:
